@@ -4,6 +4,7 @@ import (
 	"bytes"
 	"encoding/base64"
 	"encoding/hex"
+	"strings"
 )
 
 // Sensitive material registered for leak scanning (C03): raw bytes of every key the harness can
@@ -14,61 +15,89 @@ type sensitive struct {
 }
 
 // scanLeak searches an emitted byte string for plaintext key material or payload bytes in raw,
-// base64 (std / url, padded or not) and hex form. allowSK: the string is a KMS wrap request, where
-// exactly a system key plaintext is expected.
+// base64 (std / url, any alignment) and hex form. isKMSRequest: the string is a KMS wrap request,
+// where exactly a system key plaintext is expected (audited separately at the end of the run).
 func (w *World) scanLeak(where string, emitted []byte, isKMSRequest bool) {
 	if !w.ScanLeaks {
 		return
 	}
 	w.Emitted++
 	if isKMSRequest {
-		// handled by the C03 oracle (it needs to know which keys are system keys at the end)
 		w.kmsRequests = append(w.kmsRequests, append([]byte(nil), emitted...))
 		return
 	}
-	for _, s := range w.sensitiveNow() {
-		if containsEncoded(emitted, s.raw) {
-			w.Violate("plaintext-leak", "plaintext-leak/"+where+"/"+s.what, "%s contains %s plaintext", where, s.what)
-			return
-		}
-	}
-}
-
-func (w *World) sensitiveNow() []sensitive {
-	var out []sensitive
-	for _, s := range w.Ledger.Secrets {
-		if len(s.shadow) >= 16 {
-			out = append(out, sensitive{"key", s.shadow})
-		}
-	}
-	for _, p := range w.sensPayloads {
-		out = append(out, sensitive{"payload", p})
-	}
-	return out
-}
-
-func containsEncoded(hay, needle []byte) bool {
-	if len(needle) == 0 {
-		return false
-	}
-	if bytes.Contains(hay, needle) {
-		return true
-	}
-	if bytes.Contains(hay, []byte(hex.EncodeToString(needle))) {
-		return true
-	}
-	// base64 of a substring depends on alignment: try the three alignments of the interior
-	for off := 0; off < 3; off++ {
-		if len(needle)-off < 12 {
-			break
-		}
-		inner := needle[off:]
-		inner = inner[:len(inner)/3*3]
-		for _, enc := range []*base64.Encoding{base64.RawStdEncoding, base64.RawURLEncoding} {
-			if bytes.Contains(hay, []byte(enc.EncodeToString(inner))) {
-				return true
+	w.indexSensitive()
+	for i := 0; i+4 <= len(emitted); i++ {
+		k := uint32(emitted[i]) | uint32(emitted[i+1])<<8 | uint32(emitted[i+2])<<16 | uint32(emitted[i+3])<<24
+		for _, p := range w.patIndex[k] {
+			if bytes.HasPrefix(emitted[i:], p.pat) {
+				w.Violate("plaintext-leak", "plaintext-leak/"+where+"/"+p.what, "%s contains %s plaintext (%s form)", where, p.what, p.form)
+				return
 			}
 		}
 	}
-	return false
 }
+
+type leakPattern struct {
+	pat  []byte
+	what string
+	form string
+}
+
+func (w *World) addPatterns(what string, raw []byte) {
+	if len(raw) < 16 {
+		return
+	}
+	add := func(pat []byte, form string) {
+		if len(pat) < 8 {
+			return
+		}
+		k := uint32(pat[0]) | uint32(pat[1])<<8 | uint32(pat[2])<<16 | uint32(pat[3])<<24
+		if w.patIndex == nil {
+			w.patIndex = map[uint32][]leakPattern{}
+		}
+		w.patIndex[k] = append(w.patIndex[k], leakPattern{pat, what, form})
+	}
+	win := raw[:16]
+	add(append([]byte(nil), win...), "raw")
+	add([]byte(hex.EncodeToString(win)), "hex")
+	add([]byte(strings.ToUpper(hex.EncodeToString(win))), "HEX")
+	// base64 of a substring depends on alignment: index the three alignments of the interior
+	for off := 0; off < 3; off++ {
+		inner := raw[off:]
+		if len(inner) > 15+off {
+			inner = inner[:15]
+		}
+		inner = inner[:len(inner)/3*3]
+		add([]byte(base64.RawStdEncoding.EncodeToString(inner)), "base64")
+		add([]byte(base64.RawURLEncoding.EncodeToString(inner)), "base64url")
+	}
+}
+
+func (w *World) indexSensitive() {
+	for ; w.indexedSecrets < len(w.Ledger.Secrets); w.indexedSecrets++ {
+		w.addPatterns("key", w.Ledger.Secrets[w.indexedSecrets].shadow)
+	}
+	for ; w.indexedPayloads < len(w.sensPayloads); w.indexedPayloads++ {
+		w.addPatterns("payload", w.sensPayloads[w.indexedPayloads])
+	}
+}
+
+// LogLine receives a rendered debug log line of the SDK (C03 scans it for plaintext).
+func (w *World) LogLine(line string) {
+	w.LogLines++
+	w.scanLeak("debug-log", []byte(line), false)
+}
+
+// AddSensitivePayload registers a payload for leak scanning.
+func (w *World) AddSensitivePayload(p []byte) {
+	if len(p) >= 16 {
+		w.sensPayloads = append(w.sensPayloads, append([]byte(nil), p...))
+	}
+}
+
+// KMSRequests returns the plaintexts handed to the KMS for wrapping.
+func (w *World) KMSRequests() [][]byte { return w.kmsRequests }
+
+// SecretShadow returns the harness-private copy of a secret's plaintext.
+func (s *SecretRec) Shadow() []byte { return s.shadow }
